@@ -1141,7 +1141,8 @@ def run_rawfork(case):
             if fn not in aft or (aft[fn]['sha'], aft[fn]['size']) != (prev[fn]['sha'], prev[fn]['size']):
                 whose = "the PARENT's file" if fn.endswith('_%s.db' % parent) else 'the existing file'
                 res.failures.append((sig, 'child %d (%s, real pid %s) rewrote %s %s: %r -> %r' % (
-                    j, kind, cpid, whose, fn, [e[1:] for e in prev[fn]['entries']], [e[1:] for e in aft.get(fn, {'entries': []})['entries']]), j))
+                    j, kind, cpid, whose, fn, [lib.from_bits(e[1]) for e in prev[fn]['entries']],
+                    [lib.from_bits(e[1]) for e in aft.get(fn, {'entries': []})['entries']]), j))
         for fn, key, want in (('counter_%s.db' % cpid, CKEY, k), ('gauge_all_%s.db' % cpid, GKEY, v)):   # (a)
             got = val(aft, fn, key)
             if len(got) != 1 or not feq(got[0], want):
